@@ -29,7 +29,7 @@
                                       transaction matches the message (VerifyAgainstTX succeeds; C07's subject)
       kind 1 = SmartContractExecutionErrorProof
       kind 2 = ValidatorBalancesAttestationRes   aux = number of balances it carries
-      kind 3 = ReferenceBlockAttestationRes
+      kind 3 = ReferenceBlockAttestationRes      content = the block height it names
     Evidence is grouped by (kind, content) — in the code by type URL and sha256 of the bytes to hash;
     no theorem depends on the grouping being injective. *)
 From Coq Require Import List ZArith Bool Lia.
@@ -72,14 +72,18 @@ Record amsg := {
   a_evidence : list (Z * proof)  (* (validator, proof), one entry per validator *)
 }.
 
+(** what attestation remembers besides the queues: the processed-transaction set and, per chain
+    (queue rank / 4), the reference block height (UpdateChainReferenceBlock only moves it upwards) *)
+Definition amem := (list Z * list (Z * Z))%type.
+
 Record astate := {
   as_snap : option (list (Z * Z));   (* current snapshot (validator, shares) *)
   as_queue : list amsg;              (* all queues, in the order the end-blocker walks them: (rank, id) *)
-  as_processed : list Z;             (* transactions marked as already processed *)
+  as_processed : amem;               (* transactions marked as already processed; reference block height per chain *)
   as_jail_calls : list Z             (* validators valset.Jail was called for (it may refuse) *)
 }.
 
-Definition ainit : astate := {| as_snap := None; as_queue := []; as_processed := []; as_jail_calls := [] |}.
+Definition ainit : astate := {| as_snap := None; as_queue := []; as_processed := ([], []); as_jail_calls := [] |}.
 
 Record variant := {
   v_validate : bool;        (* AddMessageEvidence refuses absent / undecodable proofs *)
@@ -190,13 +194,16 @@ Inductive aout :=
 Definition tx_of (content : Z) : Z := content / 2.
 Definition receipt_ok (content : Z) : bool := Z.odd content.
 
-Definition attester (v : variant) (processed : list Z) (m : amsg) (k c x : Z) : aresult aout :=
+Definition chain_of (m : amsg) : Z := a_rank m / 4.
+Definition ref_height (chain : Z) (mem : amem) : Z := match alookup chain (snd mem) with Some h => h | None => 0 end.
+
+Definition attester (v : variant) (processed : amem) (m : amsg) (k c x : Z) : aresult aout :=
   match a_kind m with
   | KLogicCall =>
     if k =? 0 then
       if x =? 2 then AOk OKeepErr                                                (* routerAttester: the receipt cannot be read *)
       else if negb (receipt_ok c) then AOk OFlushErr                             (* routerAttester: ErrEthTxFailed *)
-      else if existsb (Z.eqb (tx_of c)) processed then AOk OKeepErr              (* "transaction is already processed" *)
+      else if existsb (Z.eqb (tx_of c)) (fst processed) then AOk OKeepErr        (* "transaction is already processed" *)
       else if negb (a_fees m) then (if v_guard_fees v then AOk OFlushErr else APanic SNilFees)
       else if x =? 1 then AOk ODone else AOk OFlushErr                           (* VerifyAgainstTX *)
     else if k =? 1 then AOk ODone                                                (* attemptRetry never fails *)
@@ -207,14 +214,16 @@ Definition attester (v : variant) (processed : list Z) (m : amsg) (k c x : Z) : 
       else if v_guard_arity v then AOk OKeepErr
       else if x <? n then APanic SBalancesIndex else AOk ODone
     else AOk OKeepErr
-  | KRefBlock => if k =? 3 then AOk ODone else AOk OKeepErr
+  | KRefBlock =>
+    if k =? 3 then (if ref_height (chain_of m) processed <? c then AOk ODone else AOk OKeepErr)  (* ErrInvalidReferenceBlockHeight *)
+    else AOk OKeepErr
   end.
 
 (** what one loop iteration does to the message and the processed set; [true] = an error was returned *)
 Inductive fate := FStay | FRemoved.
 
-Definition attest_one (v : variant) (snap : option (list (Z * Z))) (processed : list Z) (m : amsg)
-  : aresult (fate * list Z * bool) :=
+Definition attest_one (v : variant) (snap : option (list (Z * Z))) (processed : amem) (m : amsg)
+  : aresult (fate * amem * bool) :=
   match a_evidence m with
   | [] => AOk (FStay, processed, false)
   | ev =>
@@ -229,7 +238,8 @@ Definition attest_one (v : variant) (snap : option (list (Z * Z))) (processed : 
       | AOk o =>
         (* flushed: the message is removed; a transaction proof on the turnstone queue is marked processed *)
         let processed' := match a_kind m with
-                          | KLogicCall => if k =? 0 then tx_of c :: processed else processed
+                          | KLogicCall => if k =? 0 then (tx_of c :: fst processed, snd processed) else processed
+                          | KRefBlock => (fst processed, (chain_of m, c) :: snd processed)
                           | _ => processed
                           end in
         AOk (FRemoved, processed', match o with ODone => false | _ => true end)
@@ -239,8 +249,8 @@ Definition attest_one (v : variant) (snap : option (list (Z * Z))) (processed : 
 
 (** CheckAndProcessAttestedMessages over the messages fetched from all queues.  Returns the
     messages that stay, the processed set and whether the loop ran to its end. *)
-Fixpoint attest_loop (v : variant) (snap : option (list (Z * Z))) (processed : list Z) (ms : list amsg)
-  : aresult (list amsg * list Z * bool) :=
+Fixpoint attest_loop (v : variant) (snap : option (list (Z * Z))) (processed : amem) (ms : list amsg)
+  : aresult (list amsg * amem * bool) :=
   match ms with
   | [] => AOk ([], processed, true)
   | m :: r =>
